@@ -189,6 +189,9 @@ func (w *world) replay(b behaviour, bind *binding, typ string) bool {
 	defer r.teardown()
 	th := map[string]*invocation{}
 	regIdx := map[string]int{} // next block each Fetch registers
+	// blocks Bitswap has published to a Fetch; they enter its real channel at the model's FetchRecv
+	// step (the model's chan[f]), so that the real Fetch loop does not run ahead of the behaviour
+	inFlight := map[string][]blocks.Block{}
 	refs := map[string][]byte{}
 	for _, n := range []string{"a", "b"} {
 		_, c, err := w.served(bind.ids[n], bind.height, bind.sqS)
@@ -309,14 +312,19 @@ func (w *world) replay(b behaviour, bind *binding, typ string) bool {
 				}
 				blk, _ := blocks.NewBlockWithCid(inv.data, inv.res.c)
 				for _, f := range s.Takers {
-					if !r.fetches[f].ex.send(blk) {
-						return drift(i, "channel of %s already closed", f)
-					}
+					inFlight[f] = append(inFlight[f], blk)
 				}
 			}
 			delete(th, s.T)
 		case "FetchRecv":
 			fs := r.fetches[s.F]
+			if len(inFlight[s.F]) == 0 {
+				return drift(i, "model receives a block nobody published")
+			}
+			if !fs.ex.send(inFlight[s.F][0]) {
+				return drift(i, "channel of %s already closed", s.F)
+			}
+			inFlight[s.F] = inFlight[s.F][1:]
 			e, err := r.waitFor("Fetch "+s.F+" consuming a block", func(e event) bool {
 				return e.f == s.F && (e.kind == "stored" || e.kind == "unmarshal-ret" || e.kind == "done")
 			})
